@@ -247,3 +247,61 @@ mutant('C09', 'worm-row-edited', 'gearpy/mechanical_objects/gear_data/worm_gear_
 benign('C09', 'force-diameter-halved-first', SG, "abs(self.load_torque)/(self.reference_diameter/2)", "2*abs(self.load_torque)/self.reference_diameter")
 benign('C09', 'bending-single-division', HG, "self.tangential_force / \\\n            (self.module*self.face_width)/self.lewis_factor", "self.tangential_force / \\\n            (self.module*self.face_width*self.lewis_factor)")
 benign('C09', 'force-elif-to-nested-if', SG, "        elif self.mating_role == MatingSlave:\n            self.tangential_force", "        elif not self.mating_role != MatingSlave:\n            self.tangential_force")
+
+RL = 'gearpy/utils/relations.py'
+# ------------------------------------------------------------------------------------------ C10
+mutant('C10', 'gear-ratio-inverted', RL, "slave.master_gear_ratio = slave.n_teeth/master.n_teeth", "slave.master_gear_ratio = master.n_teeth/slave.n_teeth", 'C10.effects')
+mutant('C10', 'gear-role-swapped', RL, "    master.mating_role = MatingMaster\n    slave.driven_by = master\n    slave.mating_role = MatingSlave\n    slave.master_gear_ratio = slave.n_teeth/master.n_teeth", "    master.mating_role = MatingSlave\n    slave.driven_by = master\n    slave.mating_role = MatingMaster\n    slave.master_gear_ratio = slave.n_teeth/master.n_teeth", 'C10.effects')
+mutant('C10', 'gear-link-before-module-check', RL, "    if master.module is not None and slave.module is not None:", "    master.drives = slave\n    if master.module is not None and slave.module is not None:", 'C10.atomic')
+mutant('C10', 'gear-module-check-deleted', RL, "        if master.module != slave.module:", "        if False:", 'C10.rejects')
+mutant('C10', 'gear-efficiency-upper-only', RL, "    if efficiency > 1 or efficiency < 0:", "    if efficiency > 1:", 'C10')
+mutant('C10', 'gear-same-element-check-deleted', RL, "    if master == slave:\n        raise ValueError(\n            \"Parameters 'master' and 'slave' cannot be the same gear.\"", "    if False:\n        raise ValueError(\n            \"Parameters 'master' and 'slave' cannot be the same gear.\"", 'C10.rejects')
+mutant('C10', 'gear-helical-spur-accepted', RL, "    else:\n        if hasattr(slave, 'helix_angle'):", "    else:\n        if False:", 'C10.rejects')
+mutant('C10', 'worm-ratio-wheel-driving-inverted', RL, "gear_ratio = slave.n_starts/master.n_teeth", "gear_ratio = master.n_teeth/slave.n_starts", 'C10.effects')
+mutant('C10', 'worm-efficiency-sign', RL, "            (master.pressure_angle.cos() -\n                friction_coefficient*master.helix_angle.tan()) / \\", "            (master.pressure_angle.cos() +\n                friction_coefficient*master.helix_angle.tan()) / \\", 'C10.effects')
+mutant('C10', 'worm-selflocking-on-wheel', RL, "    worm_gear.self_locking = self_locking", "    slave.self_locking = self_locking", 'C10.effects')
+mutant('C10', 'worm-selflocking-ge', RL, "        friction_coefficient > worm_gear.pressure_angle.cos() * \\", "        friction_coefficient >= worm_gear.pressure_angle.cos() * \\", 'C10.effects')
+mutant('C10', 'worm-selflocking-sin', RL, "        worm_gear.helix_angle.tan()", "        worm_gear.helix_angle.sin()", 'C10.effects')
+mutant('C10', 'worm-two-wheels-accepted', RL, "    if isinstance(master, WormWheel) and isinstance(slave, WormWheel):", "    if isinstance(master, WormWheel) and isinstance(slave, WormGear) and False:", 'C10.rejects')
+mutant('C10', 'worm-pressure-angle-check-deleted', RL, "    if master.pressure_angle != slave.pressure_angle:", "    if False:", 'C10.rejects')
+mutant('C10', 'worm-efficiency-assigned-last (pre-fix shape)', RL, """    slave.master_gear_efficiency = efficiency
+    master.drives = slave
+    master.mating_role = MatingMaster
+    slave.driven_by = master
+    slave.mating_role = MatingSlave
+    slave.master_gear_ratio = gear_ratio
+    worm_gear.self_locking = self_locking
+""", """    master.drives = slave
+    master.mating_role = MatingMaster
+    slave.driven_by = master
+    slave.mating_role = MatingSlave
+    slave.master_gear_ratio = gear_ratio
+    worm_gear.self_locking = self_locking
+    slave.master_gear_efficiency = efficiency
+""", 'C10.atomic')
+mutant('C10', 'joint-motor-slave-accepted', RL, "    if isinstance(slave, MotorBase):", "    if False:", 'C10.rejects')
+mutant('C10', 'joint-ratio-not-one', RL, "    slave.master_gear_ratio = 1.0", "    slave.master_gear_ratio = 2.0", 'C10.effects')
+mutant('C10', 'joint-no-backlink', RL, "    master.drives = slave\n    slave.driven_by = master\n    slave.master_gear_ratio = 1.0", "    master.drives = slave\n    slave.master_gear_ratio = 1.0", 'C10.effects')
+mutant('C10', 'ratio-setter-allows-zero', MB, "        if master_gear_ratio <= 0:", "        if master_gear_ratio < 0:", 'C10.range')
+mutant('C10', 'efficiency-setter-no-lower-bound', WG, "        if master_gear_efficiency > 1 or master_gear_efficiency < 0:", "        if master_gear_efficiency > 1:", 'C10.range')
+benign('C10', 'gear-validation-reordered', RL, """    if master == slave:
+        raise ValueError(
+            "Parameters 'master' and 'slave' cannot be the same gear."
+        )
+
+    if not isinstance(efficiency, float | int):
+        raise TypeError(
+            "Parameter 'efficiency' must be a float or an integer."
+        )
+""", """    if not isinstance(efficiency, float | int):
+        raise TypeError(
+            "Parameter 'efficiency' must be a float or an integer."
+        )
+
+    if master == slave:
+        raise ValueError(
+            "Parameters 'master' and 'slave' cannot be the same gear."
+        )
+""")
+benign('C10', 'gear-assignments-reordered', RL, "    master.drives = slave\n    master.mating_role = MatingMaster\n    slave.driven_by = master\n    slave.mating_role = MatingSlave\n    slave.master_gear_ratio = slave.n_teeth/master.n_teeth", "    slave.driven_by = master\n    slave.mating_role = MatingSlave\n    master.drives = slave\n    master.mating_role = MatingMaster\n    slave.master_gear_ratio = slave.n_teeth/master.n_teeth")
+benign('C10', 'worm-efficiency-explicit-check', RL, "    slave.master_gear_efficiency = efficiency\n    master.drives = slave", "    if efficiency > 1 or efficiency < 0:\n        raise ValueError('Computed efficiency out of range.')\n    master.drives = slave\n    slave.master_gear_efficiency = efficiency")
